@@ -1181,7 +1181,9 @@ class LangServer:
             return None
         # Construct implementation reference
         if var_obj.parent.get_type() == CLASS_TYPE_ID:
-            impl_obj = var_obj.link_obj
+            # Only bindings have a link; GENERIC bindings (interfaces) and
+            # components declared in the type do not
+            impl_obj = getattr(var_obj, "link_obj", None)
             if (impl_obj is not None) and (impl_obj.file_ast.file is not None):
                 return self._create_ref_link(impl_obj)
         elif var_obj.parent.get_type() == INTERFACE_TYPE_ID:
